@@ -142,6 +142,16 @@ def check(cx):
             any(fm.dominates(d.bb, u.bb) for d in dels for u in upd)
         cx.verdict(good, r3, "delete-arm:stamp-and-write", fm.where(), "entry stamped and written back",
                    "the delete arm does not write the stamped index entry back")
+        # ... and what is stamped is the entry stored in the tree (its creator stamp is the inserter's), not a tuple built
+        # for the search: a freshly built tuple is created *by the deleter*, so after the deleter rolls back the entry is
+        # invisible although the table row is live again
+        for i, d in enumerate(dels):
+            prov = {x[1] for x in fm.nearest_calls(op_local(d.args[0])) if x[0] == "call"}
+            fresh = sorted(x for x in prov if "TupleBuilder" in x)
+            stored = sorted(x for x in prov if x.startswith(BTREE) or "from_slice" in x or "TupleReader" in x)
+            cx.verdict(bool(stored) and not fresh, r3, "delete-arm:stamps-stored-entry#%d" % i, d.where(), "the deleter stamps the entry read from the tree (%s)" % ", ".join(x.rsplit("::", 1)[-1] for x in stored),
+                       "the delete arm stamps a tuple it built itself (%s) and writes it over the stored index entry: the entry's creator "
+                       "becomes the deleting transaction, a rolled-back DELETE leaves the key invisible in the index and a duplicate is accepted" % ", ".join(fresh or ["unknown origin"]))
         # update arm: the region that calls build_index_assignments
         bia = [c for c in fm.calls() if c.callee == DML + "::build_index_assignments"]
         if not bia:
@@ -394,3 +404,33 @@ def check(cx):
     # ---- C06.9 (construct shared with C05.6) ---------------------------------------------------------------------------
     cx.include(c05, {"C05.6"}, "C06.9", "shared with C05.6: the index scan that replaces a filter uses the bound side and inclusiveness the "
                "comparison means, so that the index plan and the scan-plus-filter plan return the same rows", floor=12)
+
+    # ---- C06.10 the sort enforcer: a delivered ordering satisfies a required one only if it covers all of it --------------
+    r10 = cx.rule("C06.10", "FLOW: PhysicalProperties::satisfies (which decides whether a Sort is put under a merge join) checks every "
+                  "required sort column: the two orderings' lengths are compared, or the column walk runs over the required "
+                  "ordering alone (never a zip, which stops at the shorter one and accepts a prefix)", floor=1)
+    fs_ = cx.guard(r10, "satisfies", p.fn, "sql::planner::prop::PhysicalProperties::satisfies")
+    if fs_:
+        lens = [c for c in fs_.calls() if c.defn.endswith("::len")]
+        own = [c for c in lens if any("BoundExpression" in a for a in c.gargs)]          # self.ordering: Vec<(BoundExpression, bool)>
+        req = [c for c in lens if any("OrderingSpec" in a for a in c.gargs)]             # required.ordering: Vec<OrderingSpec>
+        cmpd = False
+        for b in fs_.blocks:
+            for st in b["stmts"]:
+                if st["rv"].get("r") == "bin" and st["rv"]["op"] in ("Lt", "Le", "Gt", "Ge", "Eq", "Ne"):
+                    ls = [op_local(o) for o in st["rv"]["o"]]
+                    if None in ls:
+                        continue
+                    d0, d1 = fs_.dep_closure(ls[0]) | {ls[0]}, fs_.dep_closure(ls[1]) | {ls[1]}
+                    o_ = {c.dst[0] for c in own}
+                    r_ = {c.dst[0] for c in req}
+                    if (d0 & o_ and d1 & r_) or (d0 & r_ and d1 & o_):
+                        cmpd = True
+        walkers = [c for c in fs_.calls() if c.defn in ("std::iter::Iterator::all", "std::iter::Iterator::any", "std::iter::Iterator::next",
+                                                       "std::iter::Iterator::try_fold", "std::iter::Iterator::position")]
+        zipped = [c for c in walkers if c.gargs and "Zip<" in c.gargs[0]]
+        over_required = [c for c in walkers if c.gargs and "OrderingSpec" in c.gargs[0] and "Zip<" not in c.gargs[0]]
+        cx.verdict(cmpd or (bool(over_required) and not zipped), r10, "covers-required", fs_.where(),
+                   "lengths compared" if cmpd else "walks the required ordering",
+                   "satisfies accepts a delivered ordering that is only a prefix of the required one (no length comparison, the "
+                   "columns are walked in a zip): no Sort is put under a merge join on a composite key and the join silently loses matches")
